@@ -269,6 +269,11 @@ impl<const TY: u8> SA<TY>
                 }
                 Act::Panic => panic!("scripted panic"),
                 Act::Fail => return Err(()),
+                Act::FailOnRestart => {
+                    if world(|w| w.started_count.get(&a).copied().unwrap_or(0)) >= 1 {
+                        return Err(());
+                    }
+                }
             }
         }
         Ok(())
@@ -316,6 +321,7 @@ impl<const TY: u8> Actor for SA<TY>
         let g = HGuard::callback(a, 0);
         match self.run(ctx, &script).await {
             Ok(()) => {
+                world(|w| *w.started_count.entry(a).or_insert(0) += 1);
                 g.finish(0);
                 Ok(())
             }
@@ -575,6 +581,7 @@ pub struct World {
     pub default_is_spawn: bool,
     pub last_default: Option<usize>,
     pub next_jid: usize,
+    pub started_count: HashMap<usize, usize>,
 }
 thread_local! { pub static WORLD: RefCell<World> = RefCell::new(World::default()); }
 pub fn world<R>(f: impl FnOnce(&mut World) -> R) -> R {
